@@ -63,9 +63,10 @@ def lane_setup():
     _st["ns"] = ns
     _run["varhash"] = {"*a*": 1, "*b*": 2, "*c*": 3, "nd": 4}
     _st["SeededVar"] = SeededVar
+    _st["redef_meta"] = lmap.map({kw.keyword("redef"): True})
     _fresh_vars()
     for name, fn in (("probe!", _probe), ("pstart!", _pstart), ("caught!", _caught), ("root!", _root),
-                     ("run-thread!", _run_thread), ("py-bindings!", _py_bindings)):
+                     ("run-thread!", _run_thread), ("py-bindings!", _py_bindings), ("py-redefs!", _py_redefs)):
         rt.Var.intern(ns, sym.symbol(name), fn)
     ev(HELPERS)
     for nm in HELPER_NAMES:
@@ -108,6 +109,9 @@ def _helper_src():
     for x in "abc":
         out.append(f"(defn set-{x}! [v] (set! *{x}* v))")
         names.append(f"set-{x}!")
+    for x in "abc":
+        out.append(f"(defn redefs-{x}* [v thunk] (with-redefs [*{x}* v] (thunk)))")
+        names.append(f"redefs-{x}*")
     out.append("(defn wb* [m thunk] (with-bindings m (thunk)))")
     out.append("(defn pyb* [m thunk] (py-bindings! m thunk))")
     out.append("(defn try* [thunk tid] (try (thunk) (catch python/Exception _ (caught! tid))))")
@@ -167,6 +171,8 @@ class Interp:
             _fns["throw*"]()
         elif t == "root":
             _root(self.vars[n[1]], n[2])
+        elif t == "redefs":
+            _py_redefs(n[1], n[2], lambda: self.block(n[3]))
         elif t == "future":
             fut = _fns["fut*"](lambda: self.block(n[1]))
             self.block(n[2])
@@ -211,6 +217,7 @@ def _root(var, val):
     _fns["alter-var-root"](var, lambda _old: val)
     ret = k.ev("root-ret", var._name.name, val)
     _run["roots"].append((var._name.name, val, inv, ret))
+    _run["cur_root"][var._name.name] = val
     return None
 
 
@@ -231,6 +238,33 @@ def _run_thread(f):
     if "exc" in box:
         raise box["exc"]
     return None
+
+
+def _py_redefs(name, val, thunk):
+    """(with-redefs [<var> val] (thunk)) through the compiled helper, made by the designated root-changing thread:
+    the root becomes val somewhere between the call and the body's start and goes back to what it was at entry
+    somewhere between the body's end and the return (recorded as two root-change intervals)."""
+    k = _run["k"]
+    cur = _run["cur_root"]
+    prev = cur.get(name, 0)
+    inv = k.ev("redef-inv", name, val)
+    mark = {}
+
+    def body():
+        mark["start"] = k.ev("redef-in", name, val)
+        _run["roots"].append((name, val, inv, mark["start"]))
+        cur[name] = val
+        try:
+            return thunk()
+        finally:
+            mark["end"] = k.ev("redef-out", name, prev)
+    try:
+        return _fns[f"redefs-{name[1]}*"](val, body)
+    finally:
+        ret = k.ev("redef-ret", name, prev)
+        if "start" in mark:
+            _run["roots"].append((name, prev, mark.get("end", mark["start"]), ret))
+            cur[name] = prev
 
 
 def _py_bindings(m, thunk):
@@ -317,7 +351,16 @@ class _Gen:
                 out.append(["bflocal", body, after])
                 out.append(["probe", self.nid()])
             elif r < 0.97 and ctx["t0"] and not ctx.get("child"):
-                out.append(["root", rng.choice(M.VARS), self.nval()])
+                if rng.random() < 0.4 and depth < 4:
+                    # with-redefs by the designated root-changing thread, possibly on a Var that is thread-bound
+                    # right here: the root changes for the body and goes back to what it was, whatever this
+                    # thread's own binding of the Var is
+                    v = rng.choice(sorted(bound)) if bound and rng.random() < 0.7 else rng.choice(M.VARS)
+                    out.append(["redefs", v, self.nval(),
+                                [["probe", self.nid()]] + self.block(depth + 1, set(bound), ctx, budget)])
+                    out.append(["probe", self.nid()])
+                else:
+                    out.append(["root", rng.choice(M.VARS), self.nval()])
             else:
                 out.append(["probe", self.nid()])
         return out
@@ -389,7 +432,7 @@ def _shrink_nodes(nodes):
     for i, n in enumerate(nodes):
         t = n[0]
         bodies = {"binding": [3], "try": [2], "future": [1, 2], "boundfn": [1], "pmap": [2],
-                  "bflocal": [1, 2], "latefut": [2]}.get(t, [])
+                  "bflocal": [1, 2], "latefut": [2], "redefs": [3]}.get(t, [])
         for bi in bodies:
             for sb in _shrink_nodes(n[bi]):
                 m = copy.deepcopy(n)
@@ -473,6 +516,9 @@ def _count_faults(nodes, acc):
             acc["body_throw"] = acc.get("body_throw", 0) + 1
         elif t == "try":
             _count_faults(n[2], acc)
+        elif t == "redefs":
+            acc["with_redefs"] = acc.get("with_redefs", 0) + 1
+            _count_faults(n[3], acc)
         elif t == "future":
             acc["children"] = acc.get("children", 0) + 1
             _count_faults(n[1], acc)
@@ -496,7 +542,7 @@ def _fresh_vars():
     sym, ns, SeededVar = _st["sym"], _st["ns"], _st["SeededVar"]
     vars_ = {}
     for name in ("*a*", "*b*", "*c*", "nd"):
-        v = SeededVar(ns, sym.symbol(name), dynamic=name != "nd")
+        v = SeededVar(ns, sym.symbol(name), dynamic=name != "nd", meta=_st["redef_meta"])
         ns.intern(sym.symbol(name), v, force=True)
         v.bind_root(0)
         vars_[name] = v
@@ -506,7 +552,7 @@ def _fresh_vars():
 
 def run(workload, k):
     rt = _st["rt"]
-    _run.update(k=k, obs=[], caught=[], roots=[], nthreads=0, varhash=workload["varhash"])
+    _run.update(k=k, obs=[], caught=[], roots=[], cur_root={}, nthreads=0, varhash=workload["varhash"])
     # every run gets Vars nobody has ever bound, built by the real constructor (a Var's first push is a state of its
     # own - seeded change C11-e made the thread-local stack lazy); the compiled helpers find them by name
     vars_ = _fresh_vars()
